@@ -14,7 +14,7 @@ TECHNIQUE = "exhaustive enumeration of (base election, extra feed row, aggregate
 RULE = (
     "pairs (feed, feed + one row not in the baseline): extra unit in {known state & known county, known state & new county, configured state without "
     "baseline units, state not in the config; district offices: known / unknown district x known / new county} x (percent, votes) in a covering set "
-    "(thorough: full 3x3) x every aggregate list of C01 x three estimators x base election with / without other passthrough units. Oracle: the run "
+    "(thorough: full 3x3) x every aggregate list of C01 x three estimators x base election with / without other passthrough units / completely reporting. Oracle: the run "
     "completes; the unit table gains exactly one 'unexpected' row; each attributable group's counted votes, prediction and both bounds move by exactly v "
     "(bootstrap: turnout by the two-party votes, margins to (N+m)/(D+w), bounds equal to the keyed recomputation from the draws, and the draws "
     "themselves are unchanged); every other cell of every table is bit-identical; a new group row appears iff the group had no other unit. "
@@ -43,6 +43,12 @@ def cases(tier, seed):
                         if tier == "quick" and setup != "np2" and base == "probes" and agg not in ("all", "pc"):
                             continue
                         out.append({"setup": setup, "office": "G", "loc": loc, "pct": pct, "votes": votes, "agg": agg, "base": base, "seed": seed})
+    # the last feed of the night: every baseline unit is reporting, nothing is left to estimate
+    for setup in ("np2", "ga1", "bs1"):
+        for loc in LOCS:
+            for agg in ("all", "pc", "cf_pc"):
+                for pct, votes in ((100, "large"), (0, "small")):
+                    out.append({"setup": setup, "office": "G", "loc": loc, "pct": pct, "votes": votes, "agg": agg, "base": "complete", "seed": seed})
     # the caller keeps its feed DataFrame between two polls and appends the new row to it
     for setup in ("np2", "ga1", "bs1"):
         for loc in ("known", "newcounty", "emptystate"):
@@ -99,7 +105,9 @@ def evaluate(case):
         if not any(v["sig"] == f"C11:{kind}:{pm}" for v in V):
             V.append({"sig": f"C11:{kind}:{pm}", "msg": f"{ {k: case[k] for k in case if k != 'seed'} }: {msg}"})
 
-    base_units = E.background(case["seed"], office, 24 if office == "H" else 16, "AA2", partial=3)
+    base_units = E.background(case["seed"], office, 24 if office == "H" else 16, "AA2", partial=0 if case["base"] == "complete" else 3)
+    if case["base"] == "complete":
+        cov["pairs_without_outstanding_units"] += 1
     if case["base"] == "probes":
         base_units += [E.make_probe(case["seed"], 0, "nonrep_partial", "pop0", office, weights=w), E.make_probe(case["seed"], 1, "zero_baseline", "pop1", office, weights=w), E.make_probe(case["seed"], 2, "unexpected", "newcounty", office, weights=w)]
     d, g, t = VOTES[case["votes"]]
@@ -206,4 +214,4 @@ def evaluate(case):
     return {"violations": V, "cov": dict(cov), "outcome": sha({k: v["rows"] for k, v in tb.items()})[:16], "nontrivial": True, "transitions": 2}
 
 
-REQUIRED_COUNTERS = {"new_group_rows": 100, "existing_group_rows": 100, "levels_not_attributable": 50, "reused_feed_pairs": 6}
+REQUIRED_COUNTERS = {"new_group_rows": 100, "existing_group_rows": 100, "levels_not_attributable": 50, "reused_feed_pairs": 6, "pairs_without_outstanding_units": 50}
